@@ -16,20 +16,20 @@ Qed.
 
 Lemma authorize_wf en cns csa ids v p :
   authorize en cns csa ids = AuthAccepted (Some v) ->
-  verified p = Some v -> no_slash (p_pkp p) = true -> wf_proxy p = true.
+  verified p = Some v -> wf_proxy p = true.
 Proof.
-  intros H Hv Hh. apply authorize_bound in H. destruct H as (_ & (l & raw & _ & _ & Hp) & _).
+  intros H Hv. apply authorize_bound in H. destruct H as (_ & (l & raw & _ & _ & Hp) & _).
   apply parse_identity_no_slash in Hp. destruct Hp as [Hn _].
-  unfold wf_proxy. rewrite Hv, Hh, Hn. reflexivity.
+  unfold wf_proxy. rewrite Hv, Hn. reflexivity.
 Qed.
 
 Lemma response_is_spec w ops p names r :
   wf_world w = true -> forallb wf_op ops = true -> wf_proxy p = true ->
-  map erase (fst (generate w (run_cache w [] ops) p names r)) = map erase (generate_spec w p names r).
+  fst (generate w (run_cache w [] ops) p names r) = generate_spec w p names r.
 Proof.
   intros Hw Hops Hp.
-  destruct (run_pointwise any_fmt w ops Hw Hops (ok_any w ops) [] (cache_inv_nil _ w)) as (_ & _ & Hc).
-  destruct (generate_spec_ok any_fmt w _ p names r Hw Hp I Hc) as [-> _]. reflexivity.
+  destruct (run_pointwise w ops Hw Hops [] (cache_inv_nil w)) as [_ Hc].
+  destruct (generate_spec_ok w _ p names r Hw Hp Hc) as [-> _]. reflexivity.
 Qed.
 
 (* after any history, a proxy without verified references receives only keys of its own verified
@@ -41,10 +41,8 @@ Lemma never_across_namespaces w ops p i names r e cl ns name :
   ns = id_ns i /\ cl = p_cluster p /\ authorized w cl ns (id_sa i) = true.
 Proof.
   intros Hw Hops Hp Hv Hr Hin Hk.
-  apply (in_map erase) in Hin. rewrite response_is_spec in Hin; auto.
-  apply in_map_iff in Hin. destruct Hin as [e' [He' Hin]].
+  rewrite response_is_spec in Hin; auto.
   eapply kube_key_same_namespace; eauto.
-  rewrite <- key_of_erase, He', key_of_erase. exact Hk.
 Qed.
 
 (* the four-case table of filterAuthorizedResources *)
